@@ -482,6 +482,23 @@ Theorem libcall_direct_witness :
   select (cfg_plain LNested) 0 0 0 callback = callback.
 Proof. vm_compute. repeat split; reflexivity. Qed.
 
+(* a script ended by sys.exit() / an uncaught exception: after the module frame the interpreter
+   unwinds runpy._run_code and runpy._run_module_as_main, which were entered before tracing
+   started; their `return` events are ill-formed input and are passed on as exits *)
+Definition nm_sysexit : name := str [115; 121; 115; 46; 101; 120; 105; 116]%nat.                 (* sys.exit *)
+Definition nm_run_code : name := str [114; 117; 110; 112; 121; 46; 95; 114; 117; 110; 95; 99; 111; 100; 101]%nat. (* runpy._run_code *)
+Definition nm_run_main : name := str [114; 117; 110; 112; 121; 46; 95; 114; 117; 110; 95; 109; 97; 105; 110]%nat. (* runpy._run_main (abbreviated) *)
+Definition libpy (n : name) : sym := {| s_name := n; s_lib := true |}.
+Definition exit_stream : list event :=
+  events (FNode (py nm_a) (FNode {| l_sym := libpy nm_sysexit; l_c := true; l_exc := true |} FNil FNil) FNil)
+  ++ [ {| e_kind := Return; e_sym := libpy nm_run_code |}; {| e_kind := Return; e_sym := libpy nm_run_main |} ].
+Theorem exit_by_exception_witness :
+  no_underflow (snd (run (cfg_plain LSingle) st0 exit_stream)) = false /\
+  snd (mc_run [] (snd (run (cfg_plain LSingle) st0 exit_stream))) = 2%nat /\
+  snd (mc_run [] (snd (run (cfg_plain LNested) st0 exit_stream))) = 2%nat /\
+  no_underflow (snd (run (cfg_plain LNone) st0 exit_stream)) = true.
+Proof. vm_compute. repeat split; reflexivity. Qed.
+
 (* ---------------------------------------------------------------- address table *)
 Lemma lookup_resolve : forall tab nm i a s, lookup tab nm i = Some (a, s) ->
   (i <= a)%N /\ nth_error tab (N.to_nat (a - i)) = Some s /\ s_name s = nm.
@@ -572,6 +589,20 @@ Proof.
         now rewrite I3.
     + specialize (IH tab s). destruct (arun c md tab s evs) as [[t2 s2] h2].
       destruct (sym_events md tab evs) as [t3 es]. cbn [app]. exact IH.
+Qed.
+
+(* the depth guard of proposed-fixes/C19-2.diff does not touch well-formed streams *)
+Lemma depth_guard_ievents : forall fns f d rest,
+  depth_guard d (ievents fns f ++ rest) = ievents fns f ++ depth_guard d rest.
+Proof.
+  intros fns f. induction f as [|i exc k IHk r IHr]; intros d rest; [reflexivity|].
+  cbn [ievents]. destruct (func_is_c (nth i fns dummy_func)).
+  - cbn [app depth_guard fe_kind]. rewrite <- app_assoc. rewrite IHk. cbn [app].
+    rewrite <- (app_assoc (ievents fns k)). cbn [app].
+    destruct exc; cbn [depth_guard fe_kind]; now rewrite IHr.
+  - cbn [app depth_guard fe_kind]. rewrite <- app_assoc. rewrite IHk. cbn [app depth_guard fe_kind].
+    rewrite <- (app_assoc (ievents fns k)). cbn [app].
+    now rewrite IHr.
 Qed.
 
 (* ---------------------------------------------------------------- the run-time checker accepts the model *)
